@@ -116,7 +116,9 @@ impl Servers {
 
 #[derive(Clone)]
 pub struct Action {
+    /// (bytes wanted, buffer size, number of slices: 1 = plain read, k > 1 = read_vectored with k slices)
     pub reads: Vec<(Option<usize>, usize)>,
+    pub slices: Vec<usize>,
     pub finish: String,
 }
 
@@ -126,6 +128,7 @@ pub fn parse_script(s: &str) -> Vec<Action> {
             let mut it = a.splitn(2, '/');
             let r = it.next().unwrap();
             let f = it.next().unwrap_or("D");
+            let mut slices = Vec::new();
             let reads = if r == "-" {
                 Vec::new()
             } else {
@@ -133,12 +136,15 @@ pub fn parse_script(s: &str) -> Vec<Action> {
                     .map(|x| {
                         let mut p = x.splitn(2, '@');
                         let m = p.next().unwrap();
-                        let n: usize = p.next().unwrap().parse().unwrap();
+                        let nk = p.next().unwrap();
+                        let mut q = nk.splitn(2, '*');
+                        let n: usize = q.next().unwrap().parse().unwrap();
+                        slices.push(q.next().map(|k| k.parse().unwrap()).unwrap_or(1));
                         (if m == "*" { None } else { Some(m.parse().unwrap()) }, n)
                     })
                     .collect()
             };
-            Action { reads, finish: f.to_string() }
+            Action { reads, slices, finish: f.to_string() }
         })
         .collect()
 }
@@ -172,13 +178,39 @@ pub fn handle_with(mut rq: Request, act: &Action, peer_expect: &str, partial: Op
     let mut end = "count";
     if !act.reads.is_empty() {
         let rd = rq.as_reader();
-        'outer: for (m_opt, n) in &act.reads {
+        'outer: for (ri, (m_opt, n)) in act.reads.iter().enumerate() {
             let mut left = m_opt.unwrap_or(usize::MAX);
+            let k = act.slices.get(ri).copied().unwrap_or(1);
             let mut buf = vec![0u8; *n];
+            let mut more: Vec<Vec<u8>> = (1..k).map(|_| vec![0u8; *n]).collect();
             end = "count";
             while left > 0 {
                 let want = left.min(*n);
-                match rd.read(&mut buf[..want]) {
+                let r = if k > 1 {
+                    // read_vectored with k slices of n bytes; what lands in the later slices is appended too
+                    let mut sl: Vec<std::io::IoSliceMut<'_>> = Vec::new();
+                    sl.push(std::io::IoSliceMut::new(&mut buf[..want]));
+                    for b in more.iter_mut() {
+                        sl.push(std::io::IoSliceMut::new(&mut b[..]));
+                    }
+                    match rd.read_vectored(&mut sl) {
+                        Ok(total) if total > want => {
+                            got.extend_from_slice(&buf[..want]);
+                            let mut rest = total - want;
+                            for b in more.iter() {
+                                let take = rest.min(b.len());
+                                got.extend_from_slice(&b[..take]);
+                                rest -= take;
+                            }
+                            left = left.saturating_sub(total);
+                            continue;
+                        }
+                        x => x,
+                    }
+                } else {
+                    rd.read(&mut buf[..want])
+                };
+                match r {
                     Ok(0) => {
                         end = "eof";
                         break 'outer;
@@ -262,6 +294,15 @@ pub fn handle_with(mut rq: Request, act: &Action, peer_expect: &str, partial: Op
                 panic!("handler panics while holding the request");
             }));
             assert!(r.is_err());
+        }
+        "F" => {
+            // raw writer: flush BEFORE the first write (e.g. a wrapping BufWriter that is still empty), then write
+            let data = unhex(rest);
+            let mut w = rq.into_writer();
+            let _ = w.flush();
+            let _ = w.write_all(&data);
+            let _ = w.flush();
+            drop(w);
         }
         "Z" => {
             // takes the raw writer and drops it untouched
